@@ -178,6 +178,60 @@ func (cs *clientState) dispatch(input respValue) (output respValue) {
 	return cs.disp.dispatch(cs, input)
 }
 
+// Session fields that other connections read (CLIENT LIST shows every client's name,
+// database, protocol version and watch state) are read and written under cs.mu.
+func (cs *clientState) setName(name string) {
+	cs.mu.Lock()
+	defer cs.mu.Unlock()
+	cs.name = name
+}
+
+func (cs *clientState) getName() string {
+	cs.mu.Lock()
+	defer cs.mu.Unlock()
+	return cs.name
+}
+
+func (cs *clientState) setRespVersion(version int) {
+	cs.mu.Lock()
+	defer cs.mu.Unlock()
+	cs.respVersion = version
+}
+
+func (cs *clientState) getRespVersion() int {
+	cs.mu.Lock()
+	defer cs.mu.Unlock()
+	return cs.respVersion
+}
+
+func (cs *clientState) getSelectedDb() int {
+	cs.mu.Lock()
+	defer cs.mu.Unlock()
+	return cs.selectedDb
+}
+
+func (cs *clientState) setWatch(key watchKey, id uint64) {
+	cs.mu.Lock()
+	defer cs.mu.Unlock()
+	cs.watches[key] = id
+}
+
+func (cs *clientState) clearWatches() {
+	cs.mu.Lock()
+	defer cs.mu.Unlock()
+	cs.watches = map[watchKey]uint64{}
+}
+
+func (cs *clientState) copyWatches() map[watchKey]uint64 {
+	cs.mu.Lock()
+	defer cs.mu.Unlock()
+	watches := make(map[watchKey]uint64, len(cs.watches))
+	for k, v := range cs.watches {
+		watches[k] = v
+	}
+	return watches
+}
+
 func (cs *clientState) setMultiInProgress(inProgress bool) {
 	cs.mu.Lock()
 	defer cs.mu.Unlock()
